@@ -249,6 +249,7 @@ def read_run(ops, outs):
     evs = []
     now = 0
     state = "standby"
+    parked = None
     for i, (l, o) in enumerate(zip(ops, outs)):
         f = l.split()
         if not f or l.startswith("#"):
@@ -265,8 +266,30 @@ def read_run(ops, outs):
         if f[0] == "adv":
             now += int(f[1])
             continue
-        if o in ("bad-op", "no-scenario", "dead"):
+        if o in ("bad-op", "no-scenario", "dead") or f[0] == "park-warn":
             continue
+        if f[0] == "start" and o == "parked":
+            parked = f[1]        # arrived, not decided yet: the decision shows at `unpark` or in front of a completion
+            continue
+        if f[0] == "finish" and o.startswith("unparked "):
+            # the parked request was decided first (it held the lock), then the completion went on
+            g = o.split()
+            k = g.index("done") if "done" in g else len(g)
+            e = Ev()
+            e.kind, e.t, e.idx, e.id, e.code, e.orc, e.syn, e.before = "start", now, i, parked, None, [], False, state
+            e.out = " ".join(g[1:k])
+            st = g[2:k]
+            e.extra, e.until = "", None
+            if g[1] in ("pass", "fallback") and st and st[0] in ("standby", "tripped", "recovering"):
+                state = st[0]
+                u = kvget(st, "until")
+                e.until = int(u) if u and u.lstrip("-").isdigit() else None
+            else:
+                e.extra = "unreadable:" + o
+            e.after = state
+            evs.append(e)
+            parked = None
+            o = " ".join(g[k:])
         if f[0] == "burst" and len(f) == 3:
             # n arrivals, the clock advancing after each; the answers are run-length encoded, the state is printed once at
             # the end: the synthetic arrivals carry the state before the burst, the last one the state after it
@@ -291,7 +314,9 @@ def read_run(ops, outs):
             continue
         e = Ev()
         e.syn = False
-        e.kind, e.t, e.idx, e.out, e.before = f[0], now, i, o, state
+        e.kind, e.t, e.idx, e.out, e.before = ("start" if f[0] == "unpark" else f[0]), now, i, o, state
+        if f[0] == "unpark":
+            parked = None
         e.id = f[1] if len(f) > 1 else None
         e.code = int(f[2]) if f[0] == "finish" and len(f) > 2 else None
         q = kvget(f, "q")
@@ -299,7 +324,7 @@ def read_run(ops, outs):
         g = o.split()
         e.extra = ""
         st = None
-        if f[0] == "start" and g and g[0] in ("pass", "fallback"):
+        if f[0] in ("start", "unpark") and g and g[0] in ("pass", "fallback"):
             st = g[1:]
         elif f[0] == "finish" and len(g) >= 3 and g[0] == "done":
             st = g[2:]
@@ -317,7 +342,7 @@ def read_run(ops, outs):
                 e.orc = [int(x) for x in om.split(",") if x.lstrip("-").isdigit()]
                 rest = [x for x in rest if not x.startswith("oracle-mismatch=")]
             e.extra = " ".join(rest)
-        elif f[0] in ("start", "finish", "state"):
+        elif f[0] in ("start", "unpark", "finish", "state"):
             e.extra = "unreadable:" + o
             e.until = None
         else:
@@ -550,7 +575,7 @@ def monitor_c18(ops, outs):
                 n_trip += 1
             if e.after == "standby":
                 n_stand += 1
-        if e.kind == "effects":
+        if e.kind == "effects" and e.out != "effects none":
             g = e.out.split()
             got_t, got_s = kvget(g, "tripped"), kvget(g, "standby")
             if len(g) != 3 or got_t != str(n_trip) or got_s != str(n_stand):
@@ -576,8 +601,16 @@ class Builder:
     def __init__(self, rng, fb, rec, cp, expr):
         self.rng, self.fb, self.rec, self.cp = rng, fb, rec, cp
         qs = quantile_texts(expr)
-        self.lines = ["cfg fb=%d rec=%d cp=%d px=%s go=%s%s" % (fb, rec, cp, px_expr(expr), go_expr(expr, rng),
-                                                                 " qs=" + ",".join(qs) if qs else "")]
+        opt = ""
+        if rng.random() < 0.4:
+            opt += " fbk=" + rng.choice(["default", "resp", "redir", "custom"])
+        if rng.random() < 0.1:
+            opt += " verbose=1"
+        if rng.random() < 0.08:
+            opt += " fx=0"
+        self.lines = ["cfg fb=%d rec=%d cp=%d px=%s go=%s%s%s" % (fb, rec, cp, px_expr(expr), go_expr(expr, rng),
+                                                                   " qs=" + ",".join(qs) if qs else "", opt)]
+        self.parks = rng.randint(1, 3) if rng.random() < 0.25 else 0
         self.now = 0
         self.fl = []
         self.n = 0
@@ -656,6 +689,8 @@ class Builder:
         for o in offs:
             self.goto(t + o)
             self.probe()
+            if self.parks and r.random() < 0.15:
+                self.park_episode("good")
             if self.fl and r.random() < 0.3:     # a request admitted before the trip completes inside the tripped interval
                 self.finish(r.choice(self.fl), self.code("mixed"))
 
@@ -702,6 +737,8 @@ class Builder:
                 n = r.randint(2, 5)
             for _ in range(n):
                 self.probe(mood)
+            if self.parks and r.random() < 0.3:
+                self.park_episode(mood)
             if r.random() < 0.15 and stp > 2:
                 self.adv(r.randrange(1, stp))      # off-grid arrival
                 self.probe(mood)
@@ -712,6 +749,26 @@ class Builder:
         self.probe("good", hold=0)
         self.probe("good")
         self.lines.append("effects")
+
+    def park_episode(self, mood):
+        """a request arrives and is parked in the breaker's "is in error state" log call; meanwhile requests admitted earlier
+        complete (possibly re-tripping the breaker) and the clock moves; then it is released and decided"""
+        r = self.rng
+        if self.parks <= 0:
+            return
+        self.parks -= 1
+        others = list(self.fl[-4:])
+        self.lines.append("park-warn 1")
+        a = self.start()
+        self.lines.append("park-warn 0")
+        if r.random() < 0.3:
+            self.adv(r.choice([1, MS, self.cp + 1]))
+        for i in r.sample(others, min(len(others), r.randint(0, 2))):
+            self.finish(i, self.code(r.choice(["bad", "bad", mood])))
+        self.adv(r.choice([0, 1, self.cp + 1, self.fb // 5, self.fb // 2, max(self.fb - 1, 0), self.rec // 4]))
+        self.lines.append("unpark " + a)
+        if r.random() < 0.7:
+            self.finish(a, self.code(mood))
 
     def bulk(self, n, step):
         self.lines.append("burst %d %d" % (n, step))
@@ -772,9 +829,47 @@ def latency_cycle(rng):
     return b.lines
 
 
+def park_retrip(rng):
+    """requests that arrive while the breaker is recovering are held in its "is in error state" log call while requests
+    admitted earlier fail and re-trip it; they are decided afterwards, inside the new fallback period"""
+    thr = lit_f(rng.choice([("0.5", 5, 10), ("0.25", 25, 100), ("0.3", 3, 10), ("0.1", 1, 10)]))
+    fn = rng.choice([("ner",), ("rcr", lit_i(500), lit_i(600), lit_i(0), lit_i(600))])
+    expr = ("cmp", rng.choice(["gt", "ge"]), fn, thr)
+    fb, rec = rng.choice(DURS[2:11]), rng.choice(DURS[2:11])
+    cp = rng.choice([0, 1000, MS, 10 * MS])
+    b = Builder(rng, fb, rec, cp, expr)
+    b.parks = 0
+    i = b.start()
+    b.adv(cp + 1)
+    b.finish(i, rng.choice([502, 504]))            # trips at T
+    t = b.now
+    for _ in range(rng.randint(1, 3)):
+        b.goto(t + fb + rng.choice([0, 1, MS]))
+        b.probe("good", hold=0)                    # recovery starts
+        u0 = b.now
+        b.goto(u0 + rec * rng.choice([5, 6, 7, 8, 9]) // 10)
+        held = [b.start() for _ in range(rng.randint(4, 9))]     # some of them are passed and stay in flight
+        b.adv(rng.choice([0, 1, cp + 1]))
+        b.lines.append("park-warn 1")
+        a = b.start()
+        b.lines.append("park-warn 0")
+        b.adv(cp + 1)
+        for j in held:
+            b.finish(j, rng.choice([502, 504, 502, 504, 200]))   # the first due failure re-trips
+        t = b.now
+        b.lines.append("state")
+        b.adv(rng.choice([1, fb // 100 + 1, fb // 5, fb // 2, max(fb - 1, 1)]))
+        b.lines.append("unpark " + a)
+        b.finish(a, 200)
+        b.lines += ["state", "effects"]
+    return b.lines
+
+
 def raw_scenario(rng, focus):
     if rng.random() < (0.15 if focus == "C18" else 0.05):
         return latency_cycle(rng)
+    if rng.random() < (0.1 if focus == "C05" else 0.03):
+        return park_retrip(rng)
     fb, rec, cp = rng.choice(DURS), rng.choice(DURS), rng.choice(CPS)
     long_rec = rng.random() < (0.2 if focus == "C12" else 0.08)
     if long_rec:
@@ -915,7 +1010,7 @@ def gen(rng, tier, focus):
     # a `finish` of a request that was answered by the fallback is `bad-op` on both sides: keep only a few
     for k in range(n):
         lines, outs = ann[k]
-        keep = [i for i in range(len(lines)) if not (outs[i] == "bad-op" and rng.random() < 0.95)]
+        keep = [i for i in range(len(lines)) if not (outs[i] == "bad-op" and lines[i].startswith("finish") and rng.random() < 0.95)]
         ann[k] = ([lines[i] for i in keep], [outs[i] for i in keep])
     nudged = [0] * n
     for rnd in range(3):
@@ -943,6 +1038,18 @@ def gen(rng, tier, focus):
 
 # ------------------------------------------------------------------------------------------ accounting
 def describe(ops, outs, hist):
+    for l, o in zip(ops, outs):
+        if o == "parked":
+            hist["park:parked"] += 1
+        elif o.startswith("unparked "):
+            hist["park:decided-before-completion"] += 1
+        elif l.startswith("unpark ") and o != "bad-op":
+            hist["park:unparked-explicitly"] += 1
+        if l.startswith("cfg "):
+            for k in ("fbk", "verbose", "fx"):
+                v = kvget(l.split(), k)
+                if v:
+                    hist["cfg:%s=%s" % (k, v)] += 1
     for l in ops:
         if l.startswith("# nudged="):
             hist["float:nudged-inputs"] += int(l.split("=")[1])
